@@ -1,5 +1,6 @@
 import Driver.Util
 import Cutadapt.StatsMerge
+import Cutadapt.Tokenizer
 /-! `Statistics.__iadd__` and the per-adapter `__iadd__` methods.
     statsmerge <summary> <summary>      summary := n,bp1,bp2,written,wbp1,wbp2,q1,q2,wa1,wa2,rc;filtered;polyA1;polyA2   table := k:v|k:v|… or -
     adaptermerge <alist> <alist>        alist := adapter/adapter/… or -      adapter := rc;front-errors;front-adjacent;back-errors;back-adjacent
@@ -80,6 +81,16 @@ def opsStats : List String → Option String
     match mergeAdapterStats a b with
     | .error _ => pure "error:adapter-stats-length"
     | .ok l => pure (if l.isEmpty then "-" else "/".intercalate (l.map showAdapter))
+  -- tokenize <hex template>  →  tokens `L<hex>` / `V<hex>` separated by blanks, or the error
+  | ["tokenize", t] => do
+    let t ← unhex t
+    match Tokenizer.tokenizeBraces t with
+    | .error .unexpectedLeft => pure "error:unexpected-left"
+    | .error .unexpectedRight => pure "error:unexpected-right"
+    | .ok toks =>
+      pure (if toks.isEmpty then "-" else " ".intercalate (toks.map fun
+        | .lit b => "L" ++ hex b
+        | .var v => "V" ++ hex v.toUTF8.toList))
   | _ => none
 
 end Driver
